@@ -274,18 +274,17 @@ def cli_case(arg):
             out["evals"] += 1
             if rf.timed_out:
                 continue
-            if rf.rc == 0:
-                continue        # (judged by C10)
+            # (whether such a run may exit 0 is C10's business; what it printed on stderr is judged here either way)
             ff, _, _ = P.parse_stderr(rf.err)
             fdone = set()
             flast = {}
             for lab, cnt, spin, term in ff:
                 if lab in fdone:
-                    out["viol"].append(("frame-after-final-line-of-its-phase/failing-run", {"label": lab, "count": cnt, "rule": rule,
+                    out["viol"].append(("frame-after-final-line-of-its-phase/run-with-a-failing-child", {"label": lab, "count": cnt, "rule": rule, "exit_status": rf.rc,
                                                                                            "stderr": rf.err[-400:]}))
                     break
                 if cnt < flast.get(lab, 0):
-                    out["viol"].append(("count-decreases-within-phase/failing-run", {"label": lab, "rule": rule}))
+                    out["viol"].append(("count-decreases-within-phase/run-with-a-failing-child", {"label": lab, "rule": rule, "exit_status": rf.rc}))
                 flast[lab] = cnt
                 if term == b"\n":
                     fdone.add(lab)
